@@ -107,6 +107,30 @@ def run(ctx, prog):
                                        stop_blocks=set(grow))
         arr = [t for t in terms if t[0] in grow]
         if not seen.get('full'):
+            # the evict-if-full step may have been moved into a private helper of the same type, called (with the state guard) before the insert: the helper
+            # is then explored with the same atoms — each of its returns must be "not full" or "full, popped and removed"
+            helper_ok = None
+            for c in f.calls:
+                g = prog.resolve_local(c.callee) if c.callee else None
+                if g is None or g is f or g.id.split('::')[0:2] != f.id.split('::')[0:2] or not all(f.dominates(c.bb, gb) for gb in grow):
+                    continue
+                og = flow.Origin(g)
+                g_pops = set(x.bb for x in g.calls if x.callee and re.search(pop_rx, x.callee))
+                g_rms = set(x.bb for x in g.calls if x.callee and re.search(rm_rx, x.callee) and x.args and field.split('.')[-1] in flow.render(og.of_operand(x.args[0])))
+                g_none = set()
+                for x in g.calls:
+                    if x.callee and re.search(pop_rx, x.callee) and 'pop_lru' in x.callee:
+                        _s, _f = flow.outcome_edges(g, x)
+                        g_none |= set(_f or [])
+                g_terms, g_seen = pathsens.explore(g, [pathsens.Atom('full', full_rx)], mark_blocks={'popped': g_pops, 'removed': g_rms}, mark_edges={'pop_none': g_none})
+                if g_seen.get('full'):
+                    g_bad = [a for (rb, via, a, path) in g_terms if not via and not (a.get('full') is False or (a.get('full') is True and a.get('popped') and (a.get('removed') or a.get('pop_none'))))]
+                    helper_ok = (g, not g_bad, len(g_terms))
+                    break
+            if helper_ok is not None:
+                ctx.inst('C20.R2', f.short, 'growth of %s only when present, not full, or after eviction' % field, helper_ok[1],
+                         'evict-if-full step in helper %s (called before every growing insert): %d abstract return states, all not-full or evicted: %s' % (helper_ok[0].name, helper_ok[2], helper_ok[1]))
+                continue
             ctx.inst('C20.R2', f.short, 'capacity guard in normal form', False,
                      'anchor missing: no switch with predicate `len(%s) − capacity ≥ 0` (a `>` instead of `>=`, a different '
                      'container or capacity field changes the normal form)' % field)
@@ -119,6 +143,7 @@ def run(ctx, prog):
         ctx.inst('C20.R2', f.short, 'growth of %s only when present, not full, or after eviction' % field, bool(arr) and not bad,
                  ('the insert at %s is reached with %s' % (f.loc_of(bad[0][0]), bad[0][1])) if bad else '%d abstract arrivals at %d growing insert(s)' % (len(arr), len(set(grow))))
     ti = ctx.body('C20.R2', 'TieredEngine::insert')
+    util.bind_role(ti, 'current_size', type_rx=r'^usize$', assigned_from=r'HotTier::len')
     ov = flow.Origin(ti, stop_at_vars=True)
     cold = [c.bb for c in ti.calls_to('HnswBackend::insert')]
     fl = ti.calls_to('TieredEngine::emergency_flush_hot_tier')
@@ -132,7 +157,34 @@ def run(ctx, prog):
     cs = ti.var_local('current_size')
     org = flow.render(flow.Origin(ti).of_local(cs[0])) if cs else '?'
     if not seen.get('at_limit'):
-        ctx.inst('C20.R2', ti.short, 'hard-limit guard in normal form', False, 'anchor missing: no `current_size − hot_tier_hard_limit ≥ 0` switch')
+        # the hard-limit step may live in a private helper whose success dominates the canonical write: explore the helper — it returns Ok only below the limit
+        # or after a successful drain
+        h_ok = None
+        for c in ti.calls:
+            g = prog.resolve_local(c.callee) if c.callee else None
+            if g is None or 'TieredEngine::' not in g.id or g is ti:
+                continue
+            se_ = flow.success_edges(ti, c)
+            if not se_ or any(cb_ in ti.reach([0], avoid_edges=se_) for cb_ in cold):
+                continue
+            util.bind_role(g, 'current_size', type_rx=r'^usize$', assigned_from=r'HotTier::len')
+            g_fl = g.calls_to('TieredEngine::emergency_flush_hot_tier')
+            g_ok_e = []
+            for x in g_fl:
+                g_ok_e += flow.success_edges(g, x)
+            g_terms, g_seen = _explore_vars(g, atoms, {'flushed': set(g_ok_e)}, set())
+            if g_seen.get('at_limit'):
+                errs_g = flow.err_blocks(g)
+                bad_g = [a for (rb, via, a, p_) in g_terms if not via and not (set(p_) & errs_g) and not (a.get('at_limit') is False or a.get('flushed'))]
+                gcs = g.var_local('current_size')
+                gorg = flow.render(flow.Origin(g).of_local(gcs[0])) if gcs else '?'
+                h_ok = (g, not bad_g and gorg == 'HotTier::len(arg:self→TieredEngine.hot_tier)', gorg)
+                break
+        if h_ok is not None:
+            ctx.inst('C20.R2', ti.short, 'canonical write only below the hard limit or after a successful drain', h_ok[1],
+                     'hard-limit step in helper %s, whose success dominates the canonical write; it returns Ok only below the limit or after a drain: %s; current_size = %s' % (h_ok[0].name, h_ok[1], h_ok[2]))
+        else:
+            ctx.inst('C20.R2', ti.short, 'hard-limit guard in normal form', False, 'anchor missing: no `current_size − hot_tier_hard_limit ≥ 0` switch')
     else:
         bad = [a for (bb, via, a, p) in arr if not (a.get('at_limit') is False or a.get('flushed'))]
         ctx.inst('C20.R2', ti.short, 'canonical write only below the hard limit or after a successful drain', bool(arr) and not bad and org == 'HotTier::len(arg:self→TieredEngine.hot_tier)',
